@@ -579,6 +579,18 @@ class Body:
                 out |= self.roots(o, _seen, _depth + 1)
         return out
 
+    TRANSPARENT = {"std::ops::Deref::deref", "std::ops::DerefMut::deref_mut", "std::borrow::Borrow::borrow",
+                   "std::borrow::BorrowMut::borrow_mut", "std::convert::AsRef::as_ref", "std::convert::AsMut::as_mut"}
+
+    def canon(self, org, _d=0):
+        """origin with smart-pointer derefs / borrows made transparent: deref(&self.data).mask == self.data.mask"""
+        if org[0] == "call" and _d < 10:
+            c = self.term(org[1])["callee"]
+            if c.get("path") in self.TRANSPARENT:
+                inner = self.canon(self.arg_origin(org[1], 0), _d + 1)
+                return extend_org(inner, org[2])
+        return org
+
     def deps(self, org):
         """every origin the value depends on (transitive; includes intermediate call results with their projections)"""
         seen = set()
